@@ -160,4 +160,9 @@ theorem parseEach_enums (ms : List (Str × Int)) (l : List Int) (h : l.all (fun 
     simp only [List.map_cons, parseEach, h1]
     rw [ih h.2]
 
+theorem lookupJ_store_skip (n x : Str) (v : Val) (rest : List (Str × Val)) (h : x ≠ n) :
+    lookupJ n (store ((x, v) :: rest)) = lookupJ n (store rest) := by
+  have : (x == n) = false := by simpa using h
+  simp [store, lookupJ, this]
+
 end Gallia.Config
